@@ -145,7 +145,9 @@ def main():
              "fset_name": "%s\n%s\n" % (hashing._ConsistentFrozenSet.__module__,
                                         hashing._ConsistentFrozenSet.__qualname__),
              "pickler_is_pure_python": hashing.Pickler is pickle._Pickler,
-             "hashseed": __import__("os").environ.get("PYTHONHASHSEED")}
+             "hashseed": __import__("os").environ.get("PYTHONHASHSEED"),
+             "opcodes": {k: getattr(pickle, k)[0] for k in dir(pickle)
+                         if k.isupper() and isinstance(getattr(pickle, k), bytes) and len(getattr(pickle, k)) == 1}}
     sys.stdout.write(json.dumps({"const": const}) + "\n")
     for line in sys.stdin:
         line = line.strip()
